@@ -1,6 +1,7 @@
 import RactorModel.Lemmas.Rpc
 import RactorModel.Lemmas.RpcGroups
 import RactorModel.Lemmas.RpcForward
+import RactorModel.Lemmas.RpcSup
 import RactorModel.Lemmas.CallResult
 
 /-!
@@ -254,6 +255,45 @@ theorem dead_actor_owns_no_port (ops : List Op) (p : Nat) (c : Call) (a : Nat) (
   unfold locOk at hloc
   constructor <;> intro hl <;> simp [hl, hx, hdead] at hloc
 
+/-- (an event has ONE holder) In every reachable state the termination event of an actor is held
+by at most one supervisor, at most once (queued or stashed), and only events of actors that have
+stopped are held. -/
+theorem event_held_by_one_supervisor (ops : List Op) (u u' a : Nat) (x x' : Sup)
+    (hx : (run ops).sups[u]? = some x) (hx' : (run ops).sups[u']? = some x')
+    (ha : a ∈ x.inbox ++ x.stash) :
+    (x.inbox ++ x.stash).Nodup ∧ (u ≠ u' → a ∉ x'.inbox ++ x'.stash) ∧
+    ∃ y, (run ops).actors[a]? = some y ∧ y.alive = false := by
+  have hU := supUniq_run ops
+  refine ⟨hU.nodup u x hx, fun hne => hU.disj u u' x x' a hne hx hx' ha, hU.dead u x a hx ha⟩
+
+/-- (the caller completes EXACTLY when the event is dropped — the dynamic half) After any
+operation sequence: if a live supervisor `u` has stashed the event of `a` and drops it
+(`supdrop u a`), every port that was inside that event is dropped in that very step and a caller
+still waiting on it has `SenderError` at the end of the step (a caller that already timed out
+keeps its `Timeout`). Before that step the caller was not failed (`event_port_held_and_not_failed`). -/
+theorem supdrop_completes_callers (ops : List Op) (u a p : Nat) (x : Sup) (c : Call)
+    (hx : (run ops).sups[u]? = some x) (hal : x.alive = true) (ha : a ∈ x.stash)
+    (hc : (run ops).calls[p]? = some c) (hl : c.loc = .event a) :
+    ∃ c', (run (ops ++ [.supdrop u a])).calls[p]? = some c' ∧ c'.loc = .dropped ∧
+      (c.res = none → c'.res = some .senderError) :=
+  supdrop_completes ops u a p x c hx hal ha hc hl
+
+/-- … the same when the supervisor drops the event at the head of its queue instead of stashing it … -/
+theorem suphandle_drop_completes_callers (ops : List Op) (u a p : Nat) (x : Sup) (rest : List Nat) (c : Call)
+    (hx : (run ops).sups[u]? = some x) (hal : x.alive = true) (hin : x.inbox = a :: rest)
+    (hc : (run ops).calls[p]? = some c) (hl : c.loc = .event a) :
+    ∃ c', (run (ops ++ [.suphandle u false])).calls[p]? = some c' ∧ c'.loc = .dropped ∧
+      (c.res = none → c'.res = some .senderError) :=
+  suphandle_drop_completes ops u a p x rest c hx hal hin hc hl
+
+/-- … and when the supervisor itself is killed with the event queued or stashed. -/
+theorem supexit_completes_callers (ops : List Op) (u a p : Nat) (x : Sup) (c : Call)
+    (hx : (run ops).sups[u]? = some x) (hal : x.alive = true) (ha : a ∈ x.inbox ∨ a ∈ x.stash)
+    (hc : (run ops).calls[p]? = some c) (hl : c.loc = .event a) :
+    ∃ c', (run (ops ++ [.supexit u])).calls[p]? = some c' ∧ c'.loc = .dropped ∧
+      (c.res = none → c'.res = some .senderError) :=
+  supexit_completes ops u a p x c hx hal ha hc hl
+
 /-- (nothing survives the supervisor) No port is inside an event that only dead supervisors
 hold: when a supervisor dies, the events queued at it and the events it stashed are dropped
 with everything in them. -/
@@ -492,6 +532,10 @@ end C09
 #print axioms C09.orphaned_event_port_is_dropped
 #print axioms C09.dropped_waiting_call_gets_senderError
 #print axioms C09.replied_waiting_call_gets_success
+#print axioms C09.event_held_by_one_supervisor
+#print axioms C09.supdrop_completes_callers
+#print axioms C09.suphandle_drop_completes_callers
+#print axioms C09.supexit_completes_callers
 #print axioms C09.dead_supervisor_holds_no_event
 #print axioms C09.answered_by_deadline
 #print axioms C09.timeout_not_early
